@@ -15,7 +15,7 @@ REPO = os.environ.get("VERIF_REPO", "/repo")
 COQ = os.path.join(VERIF, "coq")
 OCAML = os.path.join(VERIF, "ocaml")
 HARNESS = os.path.join(VERIF, "harness")
-MODELRUN = os.path.join(OCAML, "modelrun")
+MODELRUN = os.environ.get("MODELRUN", os.path.join(OCAML, "modelrun"))
 ALLOWED_AXIOMS = {
     # standard-library axioms only; anything else fails the proof layer
     "functional_extensionality_dep", "proof_irrelevance", "eq_rect_eq", "JMeq_eq", "classic",
@@ -145,6 +145,8 @@ class Check:
 
     # ---------------- builds ----------------
     def ensure_modelrun(self):
+        if "MODELRUN" in os.environ:      # private build supplied by the caller
+            return
         srcs = [os.path.join(OCAML, f) for f in os.listdir(OCAML) if f.endswith((".ml", ".sh"))]
         srcs += [os.path.join(OCAML, "extract.d", f) for f in os.listdir(os.path.join(OCAML, "extract.d"))]
         for root, _, files in os.walk(os.path.join(COQ, "theories")):
